@@ -24,6 +24,9 @@ func drawSize(max int) int {
 		return 60000 + scn(12000) // around the 64 KiB frame boundary
 	case 5:
 		n := 65000 + scn(140000)
+		if scnChance(1, 4) {
+			n = 200000 + scn(800000) // many frames: more than any send buffer holds
+		}
 		if n > max {
 			n = max
 		}
@@ -51,6 +54,8 @@ func (w *World) connOptsBig() tchannel.ConnectionOptions {
 func (w *World) linkDefaults() {
 	latMode := scn(4)
 	seg := scnChance(1, 2)
+	// how many bytes a direction holds in flight before the writer blocks (socket buffers)
+	capacity := []int{256 << 10, 256 << 10, 64 << 10, 16 << 10, 4 << 10}[scn(5)]
 	w.Net.NewLinkHook = func(l *Link) {
 		for d := 0; d < 2; d++ {
 			switch latMode {
@@ -62,6 +67,7 @@ func (w *World) linkDefaults() {
 				l.SetLatency(d, 0, 1)
 			}
 			l.SetSegmented(d, seg)
+			l.SetCapacity(d, capacity)
 			if seg {
 				w.Net.Fired["net.segment"]++
 			}
@@ -73,7 +79,7 @@ func (w *World) linkDefaults() {
 			w.linkHook(l)
 		}
 	}
-	w.describe("net latmode=%d segmented=%v", latMode, seg)
+	w.describe("net latmode=%d segmented=%v capacity=%d", latMode, seg, capacity)
 }
 
 // famMesh: 2-4 nodes that all listen and call each other concurrently in both
@@ -107,7 +113,7 @@ func famMesh(w *World) {
 				to = w.Nodes[(scn(nn-1)+1+indexOf(w.Nodes, from))%nn]
 			}
 			s := CallSpec{From: from, To: to.HostPort, Service: to.Service, Via: "direct",
-				Timeout: time.Duration(1+scn(200)) * 10 * w.Grid, Pad2: drawSize(100000), Len3: drawSize(200000), Rs2: -1, Rs3: -1,
+				Timeout: time.Duration(1+scn(200)) * 10 * w.Grid, Pad2: drawSize(100000), Len3: drawSize(1000000), Rs2: -1, Rs3: -1,
 				WritePat: scn(4), ReadPat: scnPick(0, 0, 2)}
 			if scnChance(1, 3) {
 				s.Rs2, s.Rs3 = drawSize(100000), drawSize(200000)
